@@ -10,6 +10,15 @@
 #define SEND_BLOCK_SIZE 128000
 #define RECV_BLOCK_SIZE 16000
 
+#ifdef ASL_VERIF_SEND_BLOCK // small-scope exploration of the block loops (verification builds only)
+#undef SEND_BLOCK_SIZE
+#define SEND_BLOCK_SIZE ASL_VERIF_SEND_BLOCK
+#endif
+#ifdef ASL_VERIF_RECV_BLOCK
+#undef RECV_BLOCK_SIZE
+#define RECV_BLOCK_SIZE ASL_VERIF_RECV_BLOCK
+#endif
+
 #ifdef _MSC_VER
 #pragma warning(disable : 26451 26812)
 #endif
